@@ -1,5 +1,6 @@
 """Structural rules of the field / scalar layer: operator forwarding, square-and-multiply shape, bit scan order,
 canonical scalars, inverse-None, tower constants, purity (C05, C06, C11, C12, C16)."""
+import copy
 from core.report import Rule
 from core.facts import FactsError
 from core.terms import strip, alts, walk, show
@@ -411,6 +412,158 @@ def selected_bit(v, me):
                     j = limb(y)
                     return (j, mk.bit_length() - 1) if j is not None else None
     return None
+
+
+def rule_limb_predicates(prop, repo):
+    """U256::is_zero / is_one answer for the whole 256-bit value.  The predicate is evaluated once over opaque limbs; its
+    decision paths are then confronted with witness valuations (the matching value, and the matching value with one limb
+    disturbed in its low bit / high bit / all bits): a fully understood path that answers wrongly is a violation with the
+    valuation as counter-example; a path through a library call the evaluator does not know is left undecided (note)."""
+    from core.bytex import Machine, T, Tup, Adt as BAdt, Ref as BRef
+    F = repo.F
+    R = Rule("R-LIMB-PRED", "U256::is_zero / is_one depend on every one of the four limbs: over opaque limbs, no decision path answers true for a value "
+             "with one limb disturbed, and the matching value is answered true", floor=2, exhaustive=True)
+    M64 = 2 ** 64 - 1
+    adt = F.adts.get("crate::u256::U256")
+    inner_ty = adt["variants"][0]["fields"][0]["ty"] if adt and adt.get("variants") and adt["variants"][0]["fields"] else ""
+    inner_head = inner_ty.split("<")[0]
+
+    def flat(v, val):
+        """list of concrete limb values of an evaluated term, or None"""
+        if isinstance(v, bool):
+            return None
+        if isinstance(v, int):
+            return [v]
+        if isinstance(v, BAdt):
+            out = []
+            for f in v.fields:
+                x = flat(f, val)
+                if x is None:
+                    return None
+                out += x
+            return out
+        if isinstance(v, Tup):
+            out = []
+            for f in v:
+                x = flat(f, val)
+                if x is None:
+                    return None
+                out += x
+            return out
+        if isinstance(v, BRef):
+            return None
+        x = ev(v, val)
+        return [x] if isinstance(x, int) and not isinstance(x, bool) else None
+
+    def ev(t, val):
+        if isinstance(t, (bool, int)):
+            return t
+        if not isinstance(t, T):
+            return None
+        h = t[0]
+        if h == "limb":
+            return val[t[1]]
+        if h == "not":
+            x = ev(t[1], val)
+            return (not x) if isinstance(x, bool) else ((~x) & M64 if isinstance(x, int) else None)
+        if h == "cast":
+            return ev(t[1], val)
+        if h == "binop":
+            a, b = ev(t[2], val), ev(t[3], val)
+            if a is None or b is None:
+                return None
+            o = t[1]
+            if o in ("Eq", "Ne", "Lt", "Le", "Gt", "Ge"):
+                return {"Eq": a == b, "Ne": a != b, "Lt": a < b, "Le": a <= b, "Gt": a > b, "Ge": a >= b}[o]
+            if isinstance(a, bool) or isinstance(b, bool):
+                return {"BitAnd": a and b, "BitOr": a or b, "BitXor": a != b}.get(o) if isinstance(a, bool) and isinstance(b, bool) else None
+            if o in ("BitAnd", "BitOr", "BitXor"):
+                return {"BitAnd": a & b, "BitOr": a | b, "BitXor": a ^ b}[o]
+            return None          # arithmetic on limbs may wrap: not interpreted
+        if h == "call":
+            nm = t[1].split("::")[-1] if isinstance(t[1], str) else ""
+            args = t[3]
+            if nm in ("eq", "ne") and len(args) == 2:
+                sides = []
+                for a in args:
+                    if isinstance(a, T) and a[0] == "call" and not a[3] and a[1].split("::")[-1] in ("zero", "one"):
+                        sides.append(a[1].split("::")[-1])
+                    else:
+                        sides.append(flat(a, val))
+                if sides[0] is None or sides[1] is None or (isinstance(sides[0], str) and isinstance(sides[1], str)):
+                    return None
+                for k in (0, 1):
+                    if isinstance(sides[k], str):
+                        n = len(sides[1 - k])
+                        sides[k] = [0] * n if sides[k] == "zero" else [1] + [0] * (n - 1)
+                if len(sides[0]) != len(sides[1]):
+                    return None
+                return (sides[0] == sides[1]) == (nm == "eq")
+            if nm in ("is_zero", "is_one") and len(args) == 1:
+                x = flat(args[0], val)
+                if x is None or not x:
+                    return None
+                return x == ([0] * len(x) if nm == "is_zero" else [1] + [0] * (len(x) - 1))
+        return None
+
+    for path, want in (("crate::u256::U256::is_zero", [0, 0, 0, 0]), ("crate::u256::U256::is_one", [1, 0, 0, 0])):
+        b = F.bodies.get(path)
+        R.instance()
+        if b is None or not inner_head:
+            R.fail_closed("%s:limb-pred:%s" % (prop, path), "%s not found" % path)
+            continue
+        limbs = Tup([T("limb", j) for j in range(4)])
+        me = BAdt("crate::u256::U256", "U256", [BAdt(inner_head, inner_head.split("::")[-1], [limbs])])
+        same_file = (b.rec.get("span") or {}).get("file")
+        try:
+            outs = Machine(F, lambda cb: (cb.rec.get("span") or {}).get("file") == same_file).run(b, [BRef(0, 0)], holders=[me])
+        except Exception as e:       # the machine could not follow the body: nothing decided, nothing alleged
+            R.note("%s: not evaluated (%s)" % (path, str(e)[:80]))
+            R.ok(path, sample={"fn": path, "decided": False})
+            continue
+        # a comparison returned as a value is the last test of a conjunction: split it into its two answers
+        split = []
+        for o in outs:
+            if o.kind == "return" and isinstance(o.value, T):
+                for ans in (True, False):
+                    o2 = copy.copy(o)
+                    o2.value, o2.pc = ans, tuple(o.pc) + ((o.value, ans),)
+                    split.append(o2)
+            else:
+                split.append(o)
+        vals = [("the matching value", list(want), True)]
+        for j in range(4):
+            for d, dn in ((1, "low bit"), (1 << 63, "high bit"), (M64, "all bits")):
+                v = list(want)
+                v[j] ^= d
+                vals.append(("limb %d disturbed in its %s" % (j, dn), v, False))
+        wrong, undecided = [], 0
+        for label, val, expect in vals:
+            answers, unknown = set(), False
+            for o in split:
+                st = True
+                for atom, ch in o.pc:
+                    x = ev(atom, val)
+                    if x is None:
+                        st = None if st else st
+                    elif bool(x) != bool(ch):
+                        st = False
+                        break
+                if st is False:
+                    continue
+                if st is None or o.kind != "return" or not isinstance(o.value, bool):
+                    unknown = True
+                else:
+                    answers.add(o.value)
+            if (not expect) in answers and not unknown:
+                wrong.append("%s (%s) is answered %s" % (label, ["%#x" % x for x in val], not expect))
+            elif unknown or answers != {expect}:
+                undecided += 1
+        if undecided and not wrong:
+            R.note("%s: %d of %d valuations go through calls the evaluator does not interpret" % (path, undecided, len(vals)))
+        R.check(not wrong, "%s:limb-pred:%s" % (prop, path), "%s does not decide its predicate on the whole value: %s" % (path, "; ".join(wrong[:3])), b.file_line(), path,
+                sample={"fn": path, "valuations": len(vals), "undecided": undecided})
+    return R.finish()
 
 
 def rule_comm(prop, repo):
